@@ -82,7 +82,7 @@ func Eligible(f *ssa.Function) bool {
 		// closure: only when every use is a direct call/defer (never stored or passed on)
 		return closureOnlyCalled(f)
 	}
-	name := f.Name()
+	name := FNm(f)
 	r := []rune(name)
 	if len(r) == 0 || unicode.IsUpper(r[0]) {
 		return false
@@ -104,10 +104,21 @@ func loopHelperOf(i ssa.Instruction) *ssa.Function {
 		return nil
 	}
 	f := cl.Call.StaticCallee()
+	if f != nil && strings.HasPrefix(f.Synthetic, "instantiation wrapper of ") && f.Origin() != nil {
+		// called from a generic body: the wrapper only forwards to the generic function itself
+		f = f.Origin()
+		if len(f.Blocks) == 0 || curProg == nil || !curProg.isRootFn(f) || f.Signature.Recv() != nil {
+			return nil
+		}
+		if r := []rune(FNm(f)); len(r) == 0 || unicode.IsUpper(r[0]) {
+			return nil
+		}
+		return f
+	}
 	if f == nil || len(f.Blocks) == 0 || !strings.HasPrefix(f.Synthetic, "instance of ") || curProg == nil || !curProg.isRootFn(f) || f.Signature.Recv() != nil {
 		return nil
 	}
-	if r := []rune(f.Name()); len(r) == 0 || unicode.IsUpper(r[0]) {
+	if r := []rune(FNm(f)); len(r) == 0 || unicode.IsUpper(r[0]) {
 		return nil
 	}
 	return f
@@ -544,7 +555,7 @@ func sideEffectFree(f *ssa.Function, depth int) bool {
 				case "time", "strings", "bytes", "math", "strconv", "unicode", "unicode/utf8", "errors", "reflect", "math/bits":
 					return
 				case "fmt":
-					if strings.HasPrefix(f.Name(), "Sprint") || f.Name() == "Errorf" {
+					if strings.HasPrefix(FNm(f), "Sprint") || FNm(f) == "Errorf" {
 						return
 					}
 				}
@@ -552,9 +563,9 @@ func sideEffectFree(f *ssa.Function, depth int) bool {
 			// dynamic or std calls: accept query-like methods by name
 			name := ""
 			if x.Call.IsInvoke() {
-				name = x.Call.Method.Name()
+				name = FNm(x.Call.Method)
 			} else if f := CalleeFunc(x); f != nil {
-				name = f.Name()
+				name = FNm(f)
 			}
 			switch name {
 			case "Enabled", "Len", "Available", "Buffered", "Size", "Before", "After", "IsZero", "Kind", "Equal", "IndexByte", "Level", "Load", "Hostname", "Port", "Cap":
